@@ -1873,6 +1873,11 @@ func signingParamsForPublicKey(pub interface{}, requestedSigAlgo SignatureAlgori
 				err = errors.New("x509: cannot sign with hash function requested")
 				return
 			}
+			if hashFunc == MD5 {
+				// checkSignature refuses MD5 (InsecureAlgorithmError)
+				err = errors.New("x509: signing with MD5 is not supported")
+				return
+			}
 			if requestedSigAlgo.isRSAPSS() {
 				sigAlgo.Parameters = rsaPSSParameters(hashFunc)
 			}
